@@ -14,6 +14,8 @@ impl FirstSetMapBuilder<'_> {
         let mut out = self.get_a_map_of_each_nonterminal_to_the_empty_set();
 
         loop {
+            #[cfg(feature = "kiki_verif")]
+            crate::verif_hooks::tick(crate::verif_hooks::SITE_FIRST_SETS);
             let DidChange(changed) = self.expand(&mut out);
             if !changed {
                 return out;
